@@ -20,21 +20,28 @@ variable {α : Type} [Transc α]
 inductive Marg (α : Type) where
   | normal (mu sigma : α)
   | lognormal (m s : α)
+  /-- any other family, given by its composed maps: `x( z ) = F⁻¹( Φ( z ) )`, `z( x ) = Φ⁻¹( F( x ) )`, the slope
+  `φ( z( x ) ) / f( x )` and the curvature `d²x/dz²` as functions of `x` (built by the driver from the family's closed forms
+  and a double-precision Φ / Φ⁻¹; at the reals they are constrained by `Marg.Valid`) -/
+  | general (ofZ toZ dxdz d2xdz2 : α → α)
 
 /-- `x = F⁻¹( Φ( z ) )` -/
 def Marg.ofZ : Marg α → α → α
   | .normal mu sigma, z => mu + sigma * z
   | .lognormal m s, z => Transc.exp (m + s * z)
+  | .general f _ _ _, z => f z
 
 /-- `z = Φ⁻¹( F( x ) )` -/
 def Marg.toZ : Marg α → α → α
   | .normal mu sigma, x => (x - mu) / sigma
   | .lognormal m s, x => (Transc.log x - m) / s
+  | .general _ g _ _, x => g x
 
 /-- `φ( z ) / f( x )` at `z = toZ x`, i.e. `dx/dz` -/
 def Marg.dxdz : Marg α → α → α
   | .normal _ sigma, _ => sigma
   | .lognormal _ s, x => s * x
+  | .general _ _ d _, x => d x
 
 structure Model (α : Type) where
   dim : Nat
@@ -66,6 +73,7 @@ def latent : Marg α → Marg α → α → α
       Transc.log (one + rho * d1 * d2) / (s1 * s2)
   | .normal _ _, .lognormal _ s, rho => rho * Transc.sqrt (Transc.exp (s * s) - one) / s
   | .lognormal _ s, .normal _ _, rho => rho * Transc.sqrt (Transc.exp (s * s) - one) / s
+  | _, _, rho => rho          -- no closed form for other families (not compared)
 
 /-- the transformation object as the constructor builds it from the latent correlation matrix:
 `L = cholesky( rhoZ )`, and `solve( L, · )` as multiplication by the triangular inverse -/
